@@ -635,6 +635,18 @@ impl<SE: extensions::ShellExtensions> ExecuteInPipeline<SE> for ast::Command {
                     }
                 }
 
+                // A stage that owns its shell (i.e., one of several stages in a pipeline) must
+                // run concurrently with the other stages; otherwise it would block forever as
+                // soon as it fills the pipe to a consumer that hasn't been started yet.
+                if let commands::ShellForCommand::OwnedShell { target, .. } = pipeline_context.shell
+                {
+                    let compound = compound.clone();
+                    let mut shell = *target;
+                    let join_handle =
+                        tokio::spawn(async move { compound.execute(&mut shell, &params).await });
+                    return Ok(ExecutionSpawnResult::StartedTask(join_handle));
+                }
+
                 Ok(compound
                     .execute(&mut pipeline_context.shell, &params)
                     .await?
